@@ -746,6 +746,11 @@ impl HandlerRunner {
                 if !fresh {
                     out.push(format!("!MON C19 id-nonce-repeated node={}", from));
                 }
+                // 16 random bytes are all equal with probability 2^-120: a constant-byte id-nonce
+                // comes from a generator with 8 bits of entropy (repeats after a few challenges)
+                if id_nonce.iter().all(|b| *b == id_nonce[0]) {
+                    out.push(format!("!MON C19 id-nonce-degenerate node={} byte={:02x}", from, id_nonce[0]));
+                }
                 if let Some(cd) = self.names.cd.get(&aad).cloned() {
                     let now = self.now_ms;
                     if let Some(d) = self.wire_dst_hint {
@@ -780,6 +785,10 @@ impl HandlerRunner {
                             if pos < self.old_keys_mark && is_new && self.wire.len() >= self.old_wire_mark {
                                 out.push(format!("!MON C15 expired-session-used node={} to={}", from, dst_idx));
                             }
+                        }
+                        // the 8 random bytes behind the 4-byte counter are all equal with probability 2^-56
+                        if matches!(p.kind, PacketKind::Message { .. }) && p.nonce[4..].iter().all(|b| *b == p.nonce[4]) {
+                            out.push(format!("!MON C19 message-nonce-random-part-degenerate node={}", from));
                         }
                         match self.ledger.key_nonce.get(&(k, p.nonce)) {
                             Some(h0) if *h0 != h => out.push(format!("!MON C19 nonce-reused-under-key node={}", from)),
@@ -1538,6 +1547,21 @@ pub fn gen_case(rng: &mut Rng, tier: &str, profile: &str, stats: &mut Stats) -> 
         ops.extend(ops2);
         ops.push("hquiet".into());
         stats.bump("gen.cases.c15");
+        return ops;
+    }
+    if profile == "C04" && rng.chance(1, 12) {
+        // the largest retry count the configuration can express, a short timeout, a silent peer:
+        // the request is put on the wire 255 times and then fails
+        stats.bump("gen.cases.max-retries");
+        let mut ops = vec!["hworld 2 255 20 1000 86400000".to_string()];
+        ops.push(format!("hreq 1 2 {} 1 {}", if rng.chance(1, 2) { "enr" } else { "raw" }, rng.range(1, 4)));
+        if rng.chance(1, 2) {
+            // (or the handshake is what stays unanswered)
+            ops.push("hdel next".into());
+            ops.push("hwru 2 next known".into());
+            ops.push("hdel next".into());
+        }
+        ops.push("hquiet".into());
         return ops;
     }
     let adversarial = profile == "C01" || profile == "C02" || profile == "C03" || rng.chance(1, 2);
